@@ -265,12 +265,29 @@ def HMem.popAll (cmp : Int → Int → Bool) (h : Nat) : Nat → HMem → Option
 
 /-! ### the client-visible operations of `Heap[T]` as one step function
 
-`HOp` = one call a client can make on one of the two heaps (`h.val`), `HRet` = what it gets
-back.  `setFix h e v` is `e.Value = v; h.Fix(e)`.  The driver (`Model/C04.lean`) runs exactly
-this function; `c04_heap_handles` is stated about it. -/
+`HState` = the element memory plus `h.cmp` of each heap (the comparator it was created with by
+`New` or last given to `Init`). `HOp` = one call a client can make on one of the two heaps
+(`h.val`), `HRet` = what it gets back. `init h c vs` is `h.Init(vs, c)`: it installs `c` as the
+heap's comparator; `setFix h e v` is `e.Value = v; h.Fix(e)`. The driver (`Model/C04.lean`) runs
+exactly this function; `c04_heap_handles` is stated about it. -/
+
+structure HState where
+  m  : HMem
+  c0 : Int → Int → Bool
+  c1 : Int → Int → Bool
+
+/-- `h.cmp` -/
+def HState.cmp (st : HState) (h : Nat) : Int → Int → Bool := if h = 0 then st.c0 else st.c1
+
+/-- `h.cmp = c` -/
+def HState.setCmp (st : HState) (h : Nat) (c : Int → Int → Bool) : HState :=
+  if h = 0 then { st with c0 := c } else { st with c1 := c }
+
+/-- two heaps from `New(0, cmp)` -/
+def HState.zero (cmp : Int → Int → Bool) : HState := { m := HMem.zero, c0 := cmp, c1 := cmp }
 
 inductive HOp where
-  | init (h : Fin 2) (vs : List Int)
+  | init (h : Fin 2) (c : Int → Int → Bool) (vs : List Int)
   | push (h : Fin 2) (x : Int)
   | pushElem (h : Fin 2) (e : Nat)
   | pop (h : Fin 2)
@@ -287,19 +304,21 @@ inductive HRet where
   | len (n : Nat)
   | vals (xs : List Int)
 
-def stepH (cmp : Int → Int → Bool) (m : HMem) : HOp → Option (HMem × HRet)
-  | .init h vs => (m.init cmp h.val vs).map fun m1 => (m1, .unit)
-  | .push h x => (m.push cmp h.val x).map fun (m1, e) => (m1, .handle (some e))
-  | .pushElem h e => (m.pushElement cmp h.val e).map fun m1 => (m1, .unit)
-  | .pop h => (m.pop cmp h.val).map fun (m1, e) => (m1, .handle e)
-  | .peek h => (m.peek h.val).map fun e => (m, .handle e)
-  | .len h => some (m, .len (m.arr h.val).length)
-  | .remove h e => (m.remove cmp h.val e).map fun m1 => (m1, .unit)
-  | .fix h e => (m.fixElem cmp h.val e).map fun m1 => (m1, .unit)
+def stepH (st : HState) : HOp → Option (HState × HRet)
+  | .init h c vs => (st.m.init c h.val vs).map fun m1 => ({ st.setCmp h.val c with m := m1 }, .unit)
+  | .push h x => (st.m.push (st.cmp h.val) h.val x).map fun (m1, e) => ({ st with m := m1 }, .handle (some e))
+  | .pushElem h e => (st.m.pushElement (st.cmp h.val) h.val e).map fun m1 => ({ st with m := m1 }, .unit)
+  | .pop h => (st.m.pop (st.cmp h.val) h.val).map fun (m1, e) => ({ st with m := m1 }, .handle e)
+  | .peek h => (st.m.peek h.val).map fun e => (st, .handle e)
+  | .len h => some (st, .len (st.m.arr h.val).length)
+  | .remove h e => (st.m.remove (st.cmp h.val) h.val e).map fun m1 => ({ st with m := m1 }, .unit)
+  | .fix h e => (st.m.fixElem (st.cmp h.val) h.val e).map fun m1 => ({ st with m := m1 }, .unit)
   | .setFix h e v =>
-    (({ m with val := m.val.set e v } : HMem).fixElem cmp h.val e).map fun m1 => (m1, .unit)
+    (({ st.m with val := st.m.val.set e v } : HMem).fixElem (st.cmp h.val) h.val e).map
+      fun m1 => ({ st with m := m1 }, .unit)
   | .popAll h =>
-    (HMem.popAll cmp h.val ((m.arr h.val).length + 1) m).map fun (m1, xs) => (m1, .vals xs)
+    (HMem.popAll (st.cmp h.val) h.val ((st.m.arr h.val).length + 1) st.m).map
+      fun (m1, xs) => ({ st with m := m1 }, .vals xs)
 
 /-! ### generic `Interface[T]` functions on a recording container
 
